@@ -226,7 +226,8 @@ func init() {
 			o := baseOptions(env, i, r)
 			o.Kubelet = sim.KubeletOptions{FailRate: 50, LateDie: 6, Flap: 8, Vanish: 10, ExitOnDelete: 5}
 			o.JobCfg = jobCfg(3600, 900, 60)
-			o.Faults = &sim.RandomFaults{Pct: 8, Kinds: []sim.FaultKind{sim.F500Before, sim.F409Before, sim.FTimeoutAfter, sim.FCrashBefore, sim.FCrashAfter, sim.F422Before}, R: rand.New(rand.NewSource(o.Seed ^ 0x9)), Until: 250, Crashes: 2}
+			o.Faults = &sim.RandomFaults{Pct: 8, Kinds: []sim.FaultKind{sim.F500Before, sim.F409Before, sim.FTimeoutAfter, sim.FCrashBefore, sim.FCrashAfter, sim.F422Before}, R: rand.New(rand.NewSource(o.Seed ^ 0x9)), Until: 250, Crashes: 2, ReadPct: 15}
+			o.InvalidPodFaults = true
 			return simCase{Opt: o, Note: "random faults", Prof: sim.Profile{MinJobs: 1, MaxJobs: 4, Parallel: 60, MaxAttempts: 3, MaxRetryDelay: 6, KillPct: 20, DeletePct: 15, ForeignPct: 20,
 				PendingTimeout: []int64{-1, 12}, TTL: []int64{30, 120}}}
 		},
@@ -257,7 +258,7 @@ func init() {
 			if i%2 == 1 {
 				sc.Opt.Mode = "rand"
 			}
-			rf := &sim.RandomFaults{Pct: 5 + r.Intn(25), Kinds: []sim.FaultKind{sim.F500Before, sim.F409Before, sim.FTimeoutAfter, sim.F503Before, sim.F429Before}, R: rand.New(rand.NewSource(sc.Opt.Seed ^ 0x20)), Until: 60 + r.Intn(300)}
+			rf := &sim.RandomFaults{Pct: 5 + r.Intn(25), Kinds: []sim.FaultKind{sim.F500Before, sim.F409Before, sim.FTimeoutAfter, sim.F503Before, sim.F429Before}, R: rand.New(rand.NewSource(sc.Opt.Seed ^ 0x20)), Until: 60 + r.Intn(300), ReadPct: 10}
 			sc.Opt.Faults = rf
 			sc.Note = "random fault pattern"
 			if i%4 == 3 {
